@@ -8,14 +8,19 @@
 (*           ONE add call over all length classes {0,1,cs-1,cs,cs+1,2cs+1} *)
 (*           x first-byte classes {N,Z,4,E,F,other}, optionally followed   *)
 (*           by a second small add; both table formats                     *)
+(*   "cnt" - chunk-count boundaries: chunk size 1, payloads of c bytes for  *)
+(*           c in Counts (255, 256, 257, ... 65537) in one add_data call or *)
+(*           as c-1 bytes + 1 byte, stored / zlib, plain / Salsa20 / ARC4,  *)
+(*           both table formats for the small counts                        *)
 (* A program is complete when it has been built or a call has failed (the  *)
 (* builder is consumed by a failed call).                                  *)
 (***************************************************************************)
 EXTENDS Blte, TLC, Json
 
 CONSTANTS D,        \* calls before build
-          Family,   \* "seq" | "pay"
-          CSmall    \* the small chunk size set through with_chunk_size_unchecked
+          Family,   \* "seq" | "pay" | "cnt"
+          CSmall,   \* the small chunk size set through with_chunk_size_unchecked
+          Counts    \* family "cnt": numbers of chunks to reach (boundaries of the bytes of the 24-bit chunk count)
 VARIABLE hist
 
 Lens == {0, 1, CSmall - 1, CSmall, CSmall + 1, 2 * CSmall + 1}
@@ -80,10 +85,29 @@ PayNow ==
      THEN (IF more THEN {SecondAdd} ELSE {}) \cup {[op |-> "build", table |-> t] : t \in {"std", "ext"}}
      ELSE {[op |-> "build", table |-> "std"]}
 
+\* ---- family "cnt" ----------------------------------------------------------------------------------------
+BigCount == 1024                       \* above: Salsa20 or none, 24-byte table only (cost)
+CntData(n) == [op |-> "add_data", len |-> n, fb |-> "r", pat |-> "rand"]
+CntNow ==
+  IF hist = <<>> THEN {[op |-> "with_chunk_size", n |-> 1, checked |-> FALSE]}
+  ELSE LET na == NAdds
+           last == LastOp
+       IN IF na = 0
+          THEN (IF last.op = "with_chunk_size" THEN {[op |-> "with_compression", mode |-> "Z"]} ELSE {}) \cup
+               (IF last.op \in {"with_chunk_size", "with_compression"}
+                  THEN {[op |-> "with_encryption", cipher |-> c] : c \in Ciphers} ELSE {}) \cup
+               {CntData(c) : c \in {x \in Counts : x <= BigCount \/ b.enc # "A"}} \cup
+               {CntData(c - 1) : c \in {x \in Counts : x <= BigCount}}
+          ELSE (IF na = 1 /\ last.len + 1 \in Counts /\ last.len < BigCount THEN {CntData(1)} ELSE {}) \cup
+               (IF NChunks(b) \in Counts
+                  THEN {[op |-> "build", table |-> t] : t \in (IF NChunks(b) <= BigCount THEN {"std", "ext"} ELSE {"std"})}
+                  ELSE {})
+
 SeqNow == {e \in SeqOps \cup {[op |-> "build", table |-> "std"]} : (e.op # "build" => Len(hist) < D) /\ SeqAllowed(e)}
 
 MCInit == Init /\ hist = <<>>
-MCNext == \E e \in (IF Family = "seq" THEN SeqNow ELSE PayNow) : Do(e) /\ hist' = Append(hist, e)
+MCNext == \E e \in (CASE Family = "seq" -> SeqNow [] Family = "pay" -> PayNow [] Family = "cnt" -> CntNow) :
+             Do(e) /\ hist' = Append(hist, e)
 
 \* ---- the design's properties ---------------------------------------------------------------------------
 IdentityInv == phase = "built" => Identity(b)
@@ -105,5 +129,6 @@ NoWitF01c == Wit(TableBy("dsz", "payload"))
 NoWitF01e == Wit(TableBy("dsz", "comp"))
 NoWitF01f == Wit(b.table = "ext" /\ TableBy("dck", "comp"))
 
-Emit == phase # "open" => PrintT(<<"PROGRAM", ToJson([inline |-> TRUE, ops |-> hist])>>)
+\* the containers of family "cnt" are far too large to be logged byte by byte
+Emit == phase # "open" => PrintT(<<"PROGRAM", ToJson([inline |-> (Family # "cnt"), ops |-> hist])>>)
 =============================================================================
